@@ -41,4 +41,9 @@ TEXTS = {
         "note": "Trusted: Lean kernel; model faithfulness validated by the correspondence run; redirect+tag / generichide+tag mirror the code (inert) and are outside the property's category list.",
         "technique": 'Lean 4 theorems (induction over the operation history; set algebra) + correspondence check',
     },
+    "C18": {
+        "level": "Lean 4 proofs that the permission test is exactly the bit-wise subset relation for all 256 x 256 mask pairs (bit extensionality, no enumeration), and that stringify_arg — over the ESCAPED table re-extracted from the source on every run — emits for every byte string a literal that the string-literal reader parses back to exactly the argument with nothing left over (induction on the argument; the 256 table rows are classified by a kernel-checked decision). Scriptlet assembly (dependencies, per-list permission gating, exceptions) is checked through the public API by an oracle; two genuine permission defects found this way were repaired (fix: commits).",
+        "note": "Trusted: Lean kernel; extract_tables.py; the model of stringify_arg / is_injectable_by validated on every run; the public-API oracle for dependency gating is exploration, not proof.",
+        "technique": "Lean 4 theorems (bit extensionality; induction over the argument with a decide over the extracted 256-entry table) + correspondence check + public-API oracle",
+    },
 }
